@@ -52,7 +52,7 @@ uint32_t xorshift128(struct xorshift128_state *state)
 	return state->x[0] = t ^ s ^ (s >> 19);
 }
 
-uint32_t XOR128_SEED = 0;
+static __thread uint32_t XOR128_SEED = 0; /* per-thread generator state: workers seed their own stream */
 
 void srand_(uint32_t seed)
 {
